@@ -413,6 +413,9 @@ class _ScopeContext:
                 while (sent := (yield f)) is not None:
                     subrecurse = sent
 
+                if not (a := f.a):  # removed (or a parent was replaced or removed) during the yield, if just replaced then need new `a`
+                    subrecurse = False
+
                 if subrecurse is True:  # user did send(True) so walk unconditionally
                     yield from f.walk(all, self_=False, back=back)  # if the user did send(True) (subrecurse=True) then we want to recurse uncondintionally (scope=False), otherwise subrecurse=1 and continue walking with scope=True
 
@@ -441,7 +444,11 @@ class _ScopeContext:
                 while (sent := (yield f)) is not None:
                     subrecurse = sent
 
-                if subrecurse and check_all_param(f := a.ctx.f):  # truly pedantic, but maybe the user really really really wants that .ctx?
+                if (subrecurse
+                    and (a := f.a)  # could have been removed or replaced with something else during the yield
+                    and (ctx := getattr(a, 'ctx', None))
+                    and check_all_param(f := ctx.f)
+                ):  # truly pedantic, but maybe the user really really really wants that .ctx?
                     while (yield f) is not None:  # eat all the user's send()s
                         pass
 
